@@ -131,9 +131,10 @@ class Ctx:
             if f and f.get("status") == "open" and f.get("property") == self.pid:
                 if finding not in [k[0] for k in self.known]:
                     self.known.append((finding, f.get("text", text)))
-                return
+                return False
         path = self.write_replay(name, dict(obj, what=text, no_failing_input_found=no_input))
         self.violations.append((name, text, path, no_input))
+        return True
 
     def machinery_broken(self, text):
         self.broken.append(text)
@@ -408,10 +409,10 @@ def correspondence_stage(ctx, cases=None, exe=None):
             small = minimise(ctx, case, exe, component, sf, 15)
             _, _, cr = rerun(small)
             fid = p.classify(small, {"kind": "crash", "text": cr or crashes[i]}) if hasattr(p, "classify") else None
-            ctx.violation(f"crash-{ctx.seed}-{i}", {"ops": small.ops, "tags": small.tags, "observed": (cr or crashes[i])[-2500:],
+            if ctx.violation(f"crash-{ctx.seed}-{i}", {"ops": small.ops, "tags": small.tags, "observed": (cr or crashes[i])[-2500:],
                                                    "flavour": (p.HARNESS or {}).get("flavour", "asan")},
-                          "implementation crashed / sanitizer abort / watchdog on this case", finding=fid)
-            reported += 1
+                          "implementation crashed / sanitizer abort / watchdog on this case", finding=fid):
+                reported += 1
             continue
         if cl is None:
             if exe:
@@ -428,10 +429,10 @@ def correspondence_stage(ctx, cases=None, exe=None):
                 co, mo, _ = rerun(small)
                 errs2 = p.oracle(small, co) or errs
                 fid = p.classify(small, {"kind": "oracle", "errors": errs2, "impl": co}) if hasattr(p, "classify") else None
-                ctx.violation(f"oracle-{ctx.seed}-{i}", {"ops": small.ops, "tags": small.tags, "clause": errs2[:5], "impl_output": co[-40:],
-                                                        "model_output": mo[-40:]},
-                              "direct oracle: " + errs2[0], finding=fid)
-                reported += 1
+                if ctx.violation(f"oracle-{ctx.seed}-{i}", {"ops": small.ops, "tags": small.tags, "clause": errs2[:5], "impl_output": co[-40:],
+                                                           "model_output": mo[-40:]},
+                                 "direct oracle: " + errs2[0], finding=fid):
+                    reported += 1
                 continue
         if ml is None:
             continue
@@ -452,11 +453,11 @@ def correspondence_stage(ctx, cases=None, exe=None):
         co, mo, _ = rerun(small)
         dd = classify_diff(co, mo) or d
         fid = p.classify(small, {"kind": "P", "impl": co, "model": mo, "diff": dd}) if hasattr(p, "classify") else None
-        ctx.violation(f"pdiff-{ctx.seed}-{i}", {"ops": small.ops, "tags": small.tags, "first_difference": {"line": dd[1], "implementation": dd[2], "model": dd[3]},
-                                               "impl_output": co[-40:], "model_output": mo[-40:]},
-                      f"implementation differs from the proved model on a property-observable line: impl `{dd[2]}` vs model `{dd[3]}`",
-                      finding=fid)
-        reported += 1
+        if ctx.violation(f"pdiff-{ctx.seed}-{i}", {"ops": small.ops, "tags": small.tags, "first_difference": {"line": dd[1], "implementation": dd[2], "model": dd[3]},
+                                                  "impl_output": co[-40:], "model_output": mo[-40:]},
+                         f"implementation differs from the proved model on a property-observable line: impl `{dd[2]}` vs model `{dd[3]}`",
+                         finding=fid):
+            reported += 1
     if wdrift and not ctx.violations:
         i, d = wdrift[0]
         ctx.violation(f"wdrift-{ctx.seed}-{i}", {"ops": cases[i].ops, "stream": "model/implementation conformance",
